@@ -358,7 +358,7 @@ func (c *ctx) replayLine(l string) {
 		if len(f) == 6 {
 			var k int
 			fmt.Sscanf(f[2], "%d", &k)
-			c.caseTruth(f[1], k, f[3], unhex(f[4]), unhex(f[5]), "replay")
+			c.caseTruth(f[1], k, f[3], unhex(f[4]), f[5], "replay")
 		}
 	case "lex":
 		// lex <mapping id> <cs> <hex query>
